@@ -218,8 +218,13 @@ package vm
 // node; like Call and create they leave cursor, depth and read-only flag as they found them.
 //@ func (*vm.EVM).CallCode(evm, ctx, caller, addr, input, gas, value) (ret, leftOverGas, err)
 //@   verify
-//@   properties C07 C02 C06
+//@   properties C07 C02 C06 C04
 //@   requires host: hostEVM(evm) && hostRef(caller) && value != nil
+//@   ghost snapTaken bool = false
+//@   ghost snapver u64 = 0
+//@   ghost snapid u64 = 0
+//@   oncall StateDB.Snapshot : snapTaken = true ; snapver = statever ; snapid = uint64($r)
+//@   assertcall StateDB.RevertToSnapshot revert-target [C04]: snapTaken && uint64($1) == snapid
 //@   ensures cursor-kept: evm.tracer.callTree.current == old(evm.tracer.callTree.current)
 //@   ensures depth-kept: evm.depth == old(evm.depth)
 //@   ensures readonly-kept: evm.interpreter.readOnly == old(evm.interpreter.readOnly)
@@ -228,12 +233,18 @@ package vm
 //@   ensures tree-grows: evm.tracer.callTree.count >= old(evm.tracer.callTree.count)
 //@   ensures no-gas-created [C02 C06]: leftOverGas <= gas
 //@   ensures halt-forfeits-gas [C02 C06]: err == nil || err == ErrExecutionReverted || leftOverGas == 0 || ((err == ErrDepth || err == ErrInsufficientBalance) && leftOverGas == gas)
+//@   ensures failed-frame-reverted [C04]: err != nil ==> (snapTaken ==> statever == snapver) && (!snapTaken ==> statever == old(statever))
 //@   modifies *
 //@ end
 //@ func (*vm.EVM).DelegateCall(evm, ctx, caller, addr, input, gas) (ret, leftOverGas, err)
 //@   verify
-//@   properties C07 C02 C06
+//@   properties C07 C02 C06 C04
 //@   requires host: hostEVM(evm) && hostRef(caller)
+//@   ghost snapTaken bool = false
+//@   ghost snapver u64 = 0
+//@   ghost snapid u64 = 0
+//@   oncall StateDB.Snapshot : snapTaken = true ; snapver = statever ; snapid = uint64($r)
+//@   assertcall StateDB.RevertToSnapshot revert-target [C04]: snapTaken && uint64($1) == snapid
 //@   ensures cursor-kept: evm.tracer.callTree.current == old(evm.tracer.callTree.current)
 //@   ensures depth-kept: evm.depth == old(evm.depth)
 //@   ensures readonly-kept: evm.interpreter.readOnly == old(evm.interpreter.readOnly)
@@ -242,12 +253,18 @@ package vm
 //@   ensures tree-grows: evm.tracer.callTree.count >= old(evm.tracer.callTree.count)
 //@   ensures no-gas-created [C02 C06]: leftOverGas <= gas
 //@   ensures halt-forfeits-gas [C02 C06]: err == nil || err == ErrExecutionReverted || leftOverGas == 0 || ((err == ErrDepth || err == ErrInsufficientBalance) && leftOverGas == gas)
+//@   ensures failed-frame-reverted [C04]: err != nil ==> (snapTaken ==> statever == snapver) && (!snapTaken ==> statever == old(statever))
 //@   modifies *
 //@ end
 //@ func (*vm.EVM).StaticCall(evm, ctx, caller, addr, input, gas) (ret, leftOverGas, err)
 //@   verify
-//@   properties C07 C02 C06
+//@   properties C07 C02 C06 C04
 //@   requires host: hostEVM(evm) && hostRef(caller)
+//@   ghost snapTaken bool = false
+//@   ghost snapver u64 = 0
+//@   ghost snapid u64 = 0
+//@   oncall StateDB.Snapshot : snapTaken = true ; snapver = statever ; snapid = uint64($r)
+//@   assertcall StateDB.RevertToSnapshot revert-target [C04]: snapTaken && uint64($1) == snapid
 //@   ensures cursor-kept: evm.tracer.callTree.current == old(evm.tracer.callTree.current)
 //@   ensures depth-kept: evm.depth == old(evm.depth)
 //@   ensures readonly-kept: evm.interpreter.readOnly == old(evm.interpreter.readOnly)
@@ -256,6 +273,7 @@ package vm
 //@   ensures tree-grows: evm.tracer.callTree.count >= old(evm.tracer.callTree.count)
 //@   ensures no-gas-created [C02 C06]: leftOverGas <= gas
 //@   ensures halt-forfeits-gas [C02 C06]: err == nil || err == ErrExecutionReverted || leftOverGas == 0 || ((err == ErrDepth || err == ErrInsufficientBalance) && leftOverGas == gas)
+//@   ensures failed-frame-reverted [C04]: err != nil ==> (snapTaken ==> statever == snapver) && (!snapTaken ==> statever == old(statever))
 //@   modifies *
 //@ end
 
